@@ -345,3 +345,39 @@ PROPS["C15"] = {
         Leg("history-race", "c15", "^TestHistory$", engine="sched", race=True, checks=(200, 3000), shards=(2, 8), tests=["history"]),
     ],
 }
+
+PROPS["C10"] = {
+    "title": "rtcmfilter emits exactly the valid RTCM frames of its input, in order",
+    "level": "exploration",
+    "technique": "property-based testing (rapid) of the application's HandleMessages entry point (package-renamed copy of apps/rtcmfilter) over streams x log configurations x chunkings; oracle: independent reference framer, file contents",
+    "level_text": ("Generated-input exploration of the composed entry point that the application's own tests never call: adversarial streams, the four display/record "
+                   "configurations, chunked readers, writer latencies and GOMAXPROCS; the writer's content and the daily record file must equal the concatenation of the "
+                   "valid frames as delimited by the harness's independent reference framer, and the readable log must have one entry per delivered message. Compared "
+                   "after bounded quiescence so that C11's timing question is kept separate."),
+    "rule": ("Cases: (adversarial stream, display on/off, record on/off, reader chunk script, writer delay script, GOMAXPROCS), fresh log directory per case. "
+             "Non-trivial = the input holds at least one valid frame and at least one non-RTCM segment; distinct = distinct case hash."),
+    "assumptions": ["reference framer ref.Segments transcribes the documented framing rules (cross-checked against the library on clean streams in C03/C12)", "the package clause of apps/rtcmfilter/*.go is renamed in the scratch copy so that it can be imported; nothing else is changed", "Go toolchain, rapid v1.3.0"],
+    "min_evals": {"quick": 300, "thorough": 20000},
+    "legs": [
+        Leg("filter", "c10", "^TestFilter$", checks=(120, 1500), shards=(4, 16), tests=["filter"]),
+        Leg("filter-race", "c10", "^TestFilter$", engine="sched", race=True, checks=(60, 500), shards=(2, 8), tests=["filter"]),
+    ],
+}
+
+PROPS["C11"] = {
+    "title": "When an application's message handling returns, all output has been written",
+    "level": "exploration",
+    "technique": "property-based testing (rapid) with harness-owned writers: a gate writer that blocks the write completing the known output (deterministic: returning while it is blocked is a violation) and latency writers (snapshot at return vs quiescence)",
+    "level_text": ("Schedule exploration made near-deterministic: the complete output is known beforehand (rtcmfilter: valid frames by the reference framer; displayrtcm3: "
+                   "header learned from an empty run + the library's own display of the sequentially framed messages), a gate writer blocks exactly the Write that "
+                   "completes it and the harness observes whether HandleMessages returns while that Write is blocked - which no correct implementation can do, so no "
+                   "timing judgement is involved; latency writers (0-5 ms per call) add the snapshot-at-return versus quiescent-content comparison. Both applications, "
+                   "inputs ending in a frame, junk or a truncated frame, GOMAXPROCS 1/4/16."),
+    "rule": ("Cases: (app, stream with at least one message, gate | latency script, GOMAXPROCS). Non-trivial = at least one message and a writer that blocks or delays; "
+             "distinct = distinct case hash."),
+    "assumptions": ["gate window 120 ms: a defective implementation that is merely slow to return inside the window is a missed detection, never a false alarm", "displayrtcm3's expected body is the library's own Message.String (its correctness is C05/C08/C15's business)", "Go toolchain, rapid v1.3.0"],
+    "min_evals": {"quick": 150, "thorough": 8000},
+    "legs": [
+        Leg("return", "c11", "^TestReturn$", engine="sched", checks=(30, 500), shards=(16, 32), tests=["return"], replay_attempts=5),
+    ],
+}
